@@ -159,16 +159,32 @@ class ArrayExtent(SymRule):
         # assignments that define them
         rel = set()
         sumnames = set(g.name for g, _ in sums.values())
+        # local pointers that are set to (a place inside) a fixed-size array somewhere in the function
+        alias = set()
+        for st in walk_stmts(fn.body):
+            if st.k == 'decl' and st.e is not None and st.var is not None and array_size(st.var) is None and \
+                    split_base(st.e) is not None:
+                alias.add(st.var.decl)
+        for ex in all_exprs(fn):
+            for n in walk(ex):
+                if n.k == 'bin' and n.op == '=' and split_base(n.a[1]) is not None:
+                    l = strip(n.a[0])
+                    if l is not None and l.k == 'var' and array_size(l) is None:
+                        alias.add(l.decl)
+
+        def into_array(a):
+            if split_base(a) is not None:
+                return True
+            return any(x.k == 'var' and x.decl in alias for x in walk(a))
         for ex in all_exprs(fn):
             for c in calls_in(ex):
                 cn = callee_name(c)
-                if (cn in PRIMS or cn in sumnames) and any(split_base(a) is not None for a in c.a[1:]):
+                if (cn in PRIMS or cn in sumnames) and any(into_array(a) for a in c.a[1:]):
                     for a in c.a[1:]:
                         rel |= set(n.op for n in walk(a) if n.k in ('var', 'mem'))
         for ex in all_exprs(fn):
             for n in walk(ex):
-                if n.k == 'idx' and strip(n.a[0]) is not None and strip(n.a[0]).k == 'var' and \
-                        array_size(strip(n.a[0])) is not None:
+                if n.k == 'idx' and into_array(n.a[0]):
                     rel |= set(x.op for x in walk(n.a[1]) if x.k in ('var', 'mem'))
         changed = not light         # light mode: only the names that occur in the accesses themselves
         while changed:
